@@ -30,27 +30,30 @@ from harness.core import Ctx, Driver, InfraError, canon
 
 ID = "C15"
 CLAIM = {
-    "technique": "Lean 4 proof (normal form is canonical for the rewrite congruence and sound for a value "
-                 "denotation) + model/code correspondence",
+    "technique": "Lean 4 proof (normal form is canonical for the rewrite congruence, sound for a value denotation, "
+                 "idempotent) + model/code correspondence",
     "text": (
         "Proved in Lean for every hint of the grammar (classes, NewType, TypeVar, bare/parametrised generics, tuple "
         "forms, type[...], Union/Optional/|, typed Literal values, Annotated) over any universe of classes: "
         "normalisation preserves the value denotation of a hint, hence hints with equal normal forms denote the same "
-        "set of values and Literal[0]/Literal[False] never collapse (normalize_injective, literal_int_bool_distinct); "
-        "hints related by any sequence of the listed meaning-preserving rewrites (reorder/nest/duplicate union "
-        "members, |, Optional, alias vs builtin, bare vs implicit parameters, literal merge/split, Literal[None] vs "
-        "None) have equal normal forms (normalize_respects) provided id() separates objects and repr() separates "
-        "literal values; re-normalising a normal form is the identity (idempotent); bare generics get Any / the bound "
-        "/ the union of constraints (implicit_params). The model is tied to the code by five correspondences on hints "
-        "as constructed by typing; load/dump/predicate equivalence is established by the direct oracle only."
+        "set of values and Literal[0]/Literal[False] never collapse (normalize_sound, normalize_injective, "
+        "literal_typed_distinct); hints related by any sequence of the listed meaning-preserving rewrites at any depth "
+        "(reorder/nest/duplicate union members, |, Optional, alias vs builtin, bare vs implicit parameters, literal "
+        "reorder/merge/split, Literal[None] vs None) have equal normal forms (canonical_form), re-normalising a normal "
+        "form read back as a hint is the identity (idempotent_cpython), both under the CPython facts that id() "
+        "separates objects and repr() separates literal values (the ordering-key hypothesis is *derived* from them, "
+        "distinct_order_keys); bare generics get Any / the bound / the union of constraints (implicit_params). The "
+        "model is tied to the code by six correspondences on hints as constructed by typing; load/dump/predicate "
+        "equivalence of equivalent hints is established by the direct oracle only (one known finding)."
     ),
     "note": (
         "Trusted: Lean 4.33 kernel; axioms audited each run (subset of propext, Classical.choice, Quot.sound). The "
-        "theorems are about the hand-written Lean model of TypeNormalizer (with fixes/C15-literal-dedup.patch and "
-        "fixes/C15-union-order-total.patch applied); the model is tied to /repo on every run by differential "
-        "correspondence. typing's own flattening/de-duplication at hint construction, forward references, Callable/"
-        "ParamSpec/TypeVarTuple/TypeAliasType are outside the model. Equivalence of loaders/dumpers/predicates is "
-        "tested (direct oracle), not proved."
+        "theorems are about the hand-written Lean model of TypeNormalizer with fixes/C15-literal-dedup, "
+        "C15-union-order-total and C15-annotated-flatten applied; the model is tied to /repo on every run by "
+        "differential correspondence (structure of the normal form, ==/hash relations, the sort keys themselves, "
+        "TypeVar limits, refusal of malformed hints). typing's own flattening/de-duplication at hint construction, "
+        "forward references, Callable/ParamSpec/TypeVarTuple/TypeAliasType are outside the model. Equivalence of "
+        "loaders/dumpers/predicates is tested (direct oracle), not proved."
     ),
     "design_ref": "DESIGN.md §4 C15",
 }
@@ -60,10 +63,12 @@ RULE = ("a case is a group of hints: a generated hint, 2-6 hints obtained from i
         "meaning-preserving rewrites and 1-2 hints obtained by one meaning-changing edit; it is non-trivial when the "
         "base hint contains a union, a literal or a bare generic")
 ASSUMPTIONS = [
-    "id() separates the classes/TypeVars/NewTypes a hint mentions and repr() separates literal values of one type "
-    "(hypotheses IdentKeys of normalize_respects / idempotent; true of CPython)",
-    "hints reach adaptix as constructed by typing: Literal values already de-duplicated by (type, value), nested "
-    "Union/Literal/Annotated already flattened (the harness feeds exactly these objects)",
+    "IdentKeys: id() separates the classes/TypeVars/NewTypes/special forms a hint mentions and is never 0; repr() (and "
+    "the enum-member key) separates literal values — hypotheses of canonical_form / idempotent_cpython, true of CPython; "
+    "the harness re-checks them on the objects and literal values of every run (suite ident-keys)",
+    "hints reach adaptix as constructed by typing: Literal values already de-duplicated by (type, value) and not empty "
+    "(TypingBuilt / side conditions of the literal rules), nested Union/Literal/Annotated already flattened (the "
+    "harness feeds exactly these objects)",
     "Annotated metadata are str objects; literal str/bytes are ASCII (the modelled part of repr())",
 ]
 TRUSTED = [
@@ -1296,6 +1301,24 @@ def suite_keys(ctx: Ctx, real: Real, drv):
             d_ += 1
             ctx.disagree("literal-key", {"suite": "lit-key", "v": v}, rl, rep)
     ctx.suite("literal-key", n, d_)
+    # the IdentKeys hypothesis on this run's objects: distinct values <-> distinct keys; object ids distinct, non-zero
+    seen_keys: dict = {}
+    n = d_ = 0
+    for v, rl in zip(vals, reals):
+        ident = canon(describe_lit(lit_value(v)) if v["t"] != "enum" else [v["c"], v["n"]])
+        k = canon(rl)
+        n += 1
+        if seen_keys.setdefault(k, ident) != ident:
+            d_ += 1
+            ctx.disagree("ident-keys", {"suite": "ident-keys", "v": v}, "distinct literal values", f"share the key {k}")
+    objs = list(universe().classes.values()) + list(universe().newtypes.values()) + list(universe().tvars.values()) \
+        + [g[0] for g in universe().generics.values()] + [None, Any, Union, Literal, Annotated, tuple, type]
+    ids = [id(o) for o in objs]
+    n += 1
+    if 0 in ids or len({id(o) for o in objs}) != len({(id(o)) for o in {id(x): x for x in objs}.values()}):
+        d_ += 1
+        ctx.disagree("ident-keys", {"suite": "ident-keys", "objects": True}, "ids distinct and non-zero", "violated")
+    ctx.suite("ident-keys", n, d_)
     # TypeVar limits
     u = universe()
     reqs, reals, names = [], [], []
